@@ -772,3 +772,24 @@ pub fn unknown_entry_points(contract_dir: &str, known: &[&str]) -> Vec<String> {
     }
     out
 }
+
+impl U {
+    /// Call every name in `names` on `addr` with every argument tuple in `tuples`, under `auth`
+    /// (arity or type mismatches simply fail). Returns how many calls were accepted; whatever they
+    /// did is for the caller's read-back to judge.
+    pub fn try_unknown(&mut self, addr: &Address, names: &[String], tuples: &[soroban_sdk::Vec<Val>], auth: &Auth) -> usize {
+        let mut accepted = 0;
+        for name in names {
+            for args in tuples {
+                let (a, n, args) = (addr.clone(), name.clone(), args.clone());
+                let o = self.call(auth.clone(), &move |env: &Env| {
+                    flat(env.try_invoke_contract::<Val, soroban_sdk::Error>(&a, &soroban_sdk::Symbol::new(env, &n), args.clone())).map(|_| ())
+                });
+                if o.ok() {
+                    accepted += 1;
+                }
+            }
+        }
+        accepted
+    }
+}
